@@ -367,6 +367,8 @@ TIME_FAMILIES = {
     "long_flat_line": lambda n: "x = " + "a + " * n + "a\n",
     "many_short_lines": lambda n: "x = 1\n" * n,
     "escaped_backticks_in_macro": lambda n: "f!(`" + "\\`" * n + ")\n",
+    "escaped_backticks_plain": lambda n: "x = `" + "a\\`" * n + "\n",
+    "prefixed_open_backticks": lambda n: "with! c: " + "rg\\` @p\\` " * n + "`\\\n",
     "long_comment_lines": lambda n: ("# " + "c" * 60 + "\n") * n,
     "deep_continuation": lambda n: "x = 1 + \\\n" * n + "1\n",
 }
